@@ -501,6 +501,25 @@ static json observe_all(State& st, const json& a)
         for (auto& c : live_crates) found_crates.emplace(c.id(), c);
         for (auto& [i, c] : found_crates) oc[std::to_string(i)] = observe_crate(st, c);
         o["crates"] = oc;
+        // crate handles held since earlier steps must answer like handles obtained just now
+        json cdis = json::array();
+        int ccompared = 0;
+        for (auto& [h, c] : st.crates)
+        {
+            auto it = oc.find(std::to_string(c.id()));
+            if (it == oc.end()) continue;
+            ++ccompared;
+            json held = observe_crate(st, c);
+            if (held != *it)
+            {
+                json fields_ = json::array();
+                for (auto& [k, v] : held.items())
+                    if (it->value(k, json()) != v) fields_.push_back(k);
+                cdis.push_back({{"handle", h}, {"id", c.id()}, {"fields", fields_}});
+            }
+        }
+        if (!cdis.empty()) o["held_crate_handles_disagree"] = cdis;
+        o["held_crate_handles_compared"] = ccompared;
     }
     if (with_tracks)
     {
